@@ -164,6 +164,10 @@ pub fn run(ctx: &Ctx) -> i32 {
             let odd = hostile::semantic_mutant(&mut rng);
             inputs.push(("semantic-mutant".to_string(), crate::print::print(&odd, &crate::print::Style::plain(), &mut Rng::new(1)).text));
         }
+        for _ in 0..4 {
+            let cyc = crate::shapes::linking_jump_cycle_family(&mut rng);
+            inputs.push(("linking-jump-cycle".to_string(), crate::print::print(&cyc.prog, &crate::print::Style::plain(), &mut Rng::new(1)).text));
+        }
     }
     // the folding tables of C08: every boundary pair of every operator reaches the constant folder
     // through the whole pipeline (a panic there is this property's subject, a wrong value C08's)
